@@ -374,6 +374,15 @@ class STok:
     def __pow__(self, e):
         return STok(("pow", self.term, e), self.shape)
 
+    def __rsub__(self, o):
+        return self._bin("sub", o, True)
+
+    def __rtruediv__(self, o):
+        return self._bin("div", o, True)
+
+    def __rpow__(self, o):
+        return STok(("pow", ("const", repr(o)), self.term), self.shape)
+
     def __neg__(self):
         t = self.term
         if isinstance(t, tuple) and t and t[0] == "neg":
